@@ -76,6 +76,7 @@ fn gens(tier: Tier) -> Vec<Gen> {
         Gen::new("errors", tier.pick(1, 16, 480)),
         Gen::new("datagrams", tier.pick(0, 2, 40)),
         Gen::new("unframed", tier.pick(1, 8, 240)),
+        Gen::new("buffered", tier.pick(1, 30, 900)),
     ]
 }
 
@@ -2383,6 +2384,260 @@ async fn unframed_scenario<B: Payload>(plan: &UnfPlan, obs: &ObsCell, stage: &St
     Ok(())
 }
 
+
+// ---------------------------------------------------------------------------------------------
+// buffered reads: h3's BufRecvStream (h3/src/stream.rs) over the adapter, every public way of
+// taking bytes out of it, possibly over a path that loses or swaps datagrams
+
+#[derive(Clone, Copy, Debug, PartialEq, Eq, Hash)]
+enum BOp {
+    /// poll_read(): pull one more chunk from the transport into the buffer (look-ahead)
+    ReadAhead,
+    TakeChunk(usize),
+    PollData,
+    FuturesRead(usize),
+    TokioRead(usize),
+    /// split() the stream (bidirectional streams, once) and go on with the receiving half
+    Split,
+}
+
+#[derive(Debug)]
+struct BufPlan {
+    cfg: RigCfg,
+    bidi: bool,
+    total: usize,
+    /// sizes of the raw peer's writes and whether it pauses behind each
+    writes: Vec<(usize, bool)>,
+    ops: Vec<BOp>,
+    seed: u64,
+}
+
+fn buf_plan(index: u64, seed: u64, tier: Tier) -> BufPlan {
+    let mut rng = Rng::new(seed);
+    let mut cfg = RigCfg::roomy(index % 2 == 0);
+    let lossy = index % 3 == 2;
+    let total = if lossy {
+        *rng.pick(&[40_000usize, 100_000, 200_000])
+    } else {
+        *rng.pick(&[0usize, 1, 2, 60, 61, 1200, 5000, 30_000])
+    };
+    let total = if tier == Tier::Lite { total.min(5000) } else { total };
+    if lossy {
+        // a few large datagrams towards the adapter are lost or overtaken, once each
+        let mut r = rig::RelayCfg::default();
+        for _ in 0..1 + rng.usize(4) {
+            r.drop_to_adapter.push(2 + rng.below(60));
+        }
+        for _ in 0..rng.usize(3) {
+            r.swap_to_adapter.push(2 + rng.below(60));
+        }
+        if rng.chance(1, 3) {
+            r.drop_to_raw.push(rng.below(6));
+        }
+        cfg.relay = Some(r);
+    } else {
+        cfg.adapter.stream_rwnd = *rng.pick(&[16u64, 300, 1 << 20]);
+    }
+    let mut writes = Vec::new();
+    let mut left = total;
+    while left > 0 {
+        let span = *rng.pick(&[3usize, 80, 2000, 70_000]);
+        let k = (1 + rng.usize(span)).min(left);
+        writes.push((k, !lossy && rng.chance(1, 3)));
+        left -= k;
+    }
+    let n_ops = 2 + rng.usize(24);
+    let bidi = rng.bool();
+    let mut ops = Vec::new();
+    let mut split_done = false;
+    for _ in 0..n_ops {
+        let op = match rng.below(if bidi && !split_done { 12 } else { 11 }) {
+            0 | 1 | 2 => BOp::ReadAhead,
+            3 | 4 => BOp::TakeChunk(*rng.pick(&[1usize, 7, 1000, usize::MAX])),
+            5 | 6 | 7 => BOp::PollData,
+            8 => BOp::FuturesRead(*rng.pick(&[1usize, 5, 700, 9000])),
+            9 | 10 => BOp::TokioRead(*rng.pick(&[1usize, 5, 700, 9000])),
+            _ => {
+                split_done = true;
+                BOp::Split
+            }
+        };
+        ops.push(op);
+    }
+    BufPlan { cfg, bidi, total, writes, ops, seed: rng.next() }
+}
+
+/// Run `ops` on `s`; everything taken out is appended to `out`. Returns Ok(true) once the end of
+/// the stream was reported, Ok(false) when the ops ran out (or a Split is next) first.
+async fn buf_ops<R: quic::RecvStream + Unpin>(s: &mut h3::stream::BufRecvStream<R, Bytes>, ops: &mut std::collections::VecDeque<BOp>, out: &mut Vec<u8>, obs: &ObsCell) -> Result<bool, String> {
+    use futures_util::io::AsyncReadExt as _;
+    while let Some(op) = ops.front().copied() {
+        if op == BOp::Split {
+            return Ok(false);
+        }
+        ops.pop_front();
+        obs.borrow_mut().count(&format!("buffered_op[{}]", match op { BOp::ReadAhead => "poll_read (look-ahead)", BOp::TakeChunk(_) => "take_chunk", BOp::PollData => "poll_data", BOp::FuturesRead(_) => "futures AsyncRead", BOp::TokioRead(_) => "tokio AsyncRead", BOp::Split => "split" }));
+        match op {
+            BOp::ReadAhead => {
+                // the answer (end seen or not) says nothing about what is still buffered
+                let eos = std::future::poll_fn(|cx| s.poll_read(cx)).await.map_err(|e| format!("poll_read: {}", rig::stream_err_class(&e)))?;
+                if eos {
+                    obs.borrow_mut().count("buffered_end_seen_by_look_ahead");
+                    if s.has_remaining() {
+                        obs.borrow_mut().count("buffered_end_seen_while_bytes_still_buffered");
+                    }
+                }
+            }
+            BOp::TakeChunk(limit) => {
+                if let Some(b) = s.take_chunk(limit) {
+                    out.extend_from_slice(&b);
+                }
+            }
+            BOp::PollData => match std::future::poll_fn(|cx| quic::RecvStream::poll_data(s, cx)).await.map_err(|e| format!("poll_data: {}", rig::stream_err_class(&e)))? {
+                Some(mut b) => {
+                    while b.has_remaining() {
+                        let c = b.chunk().to_vec();
+                        out.extend_from_slice(&c);
+                        b.advance(c.len());
+                    }
+                }
+                None => return Ok(true),
+            },
+            BOp::FuturesRead(n) => {
+                let mut buf = vec![0u8; n];
+                let k = s.read(&mut buf).await.map_err(|e| format!("futures read: {}", e))?;
+                if k == 0 {
+                    return Ok(true);
+                }
+                out.extend_from_slice(&buf[..k]);
+            }
+            BOp::TokioRead(n) => {
+                let mut buf = vec![0u8; n];
+                let k = tokio::io::AsyncReadExt::read(s, &mut buf).await.map_err(|e| format!("tokio read: {}", e))?;
+                if k == 0 {
+                    return Ok(true);
+                }
+                out.extend_from_slice(&buf[..k]);
+            }
+            BOp::Split => unreachable!(),
+        }
+    }
+    Ok(false)
+}
+
+/// After the planned operations: drain with poll_data to the end.
+async fn buf_drain<R: quic::RecvStream + Unpin>(s: &mut h3::stream::BufRecvStream<R, Bytes>, out: &mut Vec<u8>) -> Result<(), String> {
+    loop {
+        match std::future::poll_fn(|cx| quic::RecvStream::poll_data(s, cx)).await.map_err(|e| format!("poll_data: {}", rig::stream_err_class(&e)))? {
+            Some(mut b) => {
+                while b.has_remaining() {
+                    let c = b.chunk().to_vec();
+                    out.extend_from_slice(&c);
+                    b.advance(c.len());
+                }
+            }
+            None => return Ok(()),
+        }
+    }
+}
+
+async fn buffered_scenario(plan: &BufPlan, obs: &ObsCell, stage: &Stage) -> Result<(), String> {
+    stage.set("connect");
+    let pair = rig::connect(&plan.cfg).await?;
+    obs.borrow_mut().count("connections");
+    let mut aconn = AConn::new(pair.adapter.clone());
+    let raw = pair.raw.clone();
+    let mut rng = Rng::new(plan.seed);
+    let data = rng.bytes(plan.total.max(1));
+    let data = &data[..plan.total];
+    stage.set("buffered read");
+    let writer = async {
+        let mut ws = if plan.bidi {
+            let (ws, rr) = raw.open_bi().await.map_err(|e| format!("raw open_bi: {}", e))?;
+            std::mem::forget(rr); // dropping it would send STOP_SENDING to the adapter's send half
+            ws
+        } else {
+            raw.open_uni().await.map_err(|e| format!("raw open_uni: {}", e))?
+        };
+        let mut off = 0;
+        if plan.total == 0 {
+            // a stream only exists for the peer once something was sent on it
+        }
+        for (k, pause) in &plan.writes {
+            ws.write_all(&data[off..off + k]).await.map_err(|e| format!("raw write: {}", e))?;
+            off += k;
+            if *pause {
+                tokio::time::sleep(Duration::from_millis(2)).await;
+            }
+        }
+        ws.finish().map_err(|e| format!("raw finish: {}", e))?;
+        // keep the stream object until the peer has read everything
+        let _ = ws.stopped().await;
+        Ok::<_, String>(())
+    };
+    let reader = async {
+        let mut out = Vec::new();
+        let mut ops: std::collections::VecDeque<BOp> = plan.ops.iter().copied().collect();
+        if plan.bidi {
+            let b = rig::accept_bidi::<Bytes>(&mut aconn).await.map_err(|e| format!("accept_bidi: {}", rig::conn_err_class(&e)))?;
+            let mut whole = h3::stream::BufRecvStream::<_, Bytes>::new(b);
+            let mut ended = buf_ops(&mut whole, &mut ops, &mut out, obs).await?;
+            if !ended && ops.front() == Some(&BOp::Split) {
+                ops.pop_front();
+                obs.borrow_mut().count("buffered_op[split]");
+                if whole.has_remaining() {
+                    obs.borrow_mut().count("buffered_split_with_bytes_buffered");
+                }
+                let (send, mut recv) = quic::BidiStream::<Bytes>::split(whole);
+                ended = buf_ops(&mut recv, &mut ops, &mut out, obs).await?;
+                if !ended {
+                    buf_drain(&mut recv, &mut out).await?;
+                }
+                drop(send);
+            } else if !ended {
+                buf_drain(&mut whole, &mut out).await?;
+            }
+        } else {
+            let r = rig::accept_recv::<Bytes>(&mut aconn).await.map_err(|e| format!("accept_recv: {}", rig::conn_err_class(&e)))?;
+            let mut s = h3::stream::BufRecvStream::<_, Bytes>::new(r);
+            if !buf_ops(&mut s, &mut ops, &mut out, obs).await? {
+                buf_drain(&mut s, &mut out).await?;
+            }
+        }
+        Ok::<_, String>(out)
+    };
+    let (w, r) = tokio::join!(writer, reader);
+    let got = r?;
+    w?;
+    let mut o = obs.borrow_mut();
+    o.evaluations += 1;
+    {
+        let st = pair.relay_stats.lock().unwrap();
+        o.add("relay_datagrams_forwarded", st.forwarded);
+        o.add("relay_datagrams_dropped", st.dropped);
+        o.add("relay_datagrams_swapped", st.swapped);
+        if st.dropped + st.swapped > 0 {
+            o.count("buffered_streams_over_a_path_with_loss_or_reordering");
+        }
+    }
+    if got != data {
+        let at = first_diff(&got, data);
+        let kind = if got.len() < data.len() && got[..] == data[..got.len()] {
+            "buffered-read-ends-early"
+        } else if got.len() == data.len() {
+            "buffered-read-bytes-out-of-order-or-changed"
+        } else {
+            "buffered-read-bytes-lost-or-repeated"
+        };
+        o.violation(kind, format!("the peer wrote {} B and finished; BufRecvStream over the adapter handed out {} B before reporting the end; first difference at offset {}", data.len(), got.len(), at));
+    } else {
+        o.add("buffered_bytes_conserved", got.len() as u64);
+        o.count("buffered_streams_conserved");
+    }
+    o.note(format!("buffered: {} B in {} writes over a {} stream, ops {:?}", plan.total, plan.writes.len(), if plan.bidi { "bidirectional" } else { "unidirectional" }, plan.ops));
+    Ok(())
+}
+
 /// object-safe view of the send side (bidi or uni)
 trait DynSend<B: Buf> {
     fn send_frame(&mut self, f: Frame<B>) -> Result<(), StreamErrorIncoming>;
@@ -2746,6 +3001,18 @@ fn run_case(gen: &str, index: u64, seed: u64, tier: Tier, rep: &mut Report) {
             rep.count(&format!("adapter_role[{}]", if plan.cfg.adapter_is_client { "client" } else { "server" }));
             let out = rig::run_scenario(&stage, unframed_scenario::<Bytes>(&plan, &obs, &stage));
             let case = json!({"cfg": plan.cfg.json(), "total": plan.total, "max_piece": plan.max_piece, "slow_reader": plan.slow_reader, "code": plan.code});
+            let obs = obs.into_inner();
+            if index == 0 {
+                rep.sample(json!({"gen": gen, "index": index, "plan": case, "trace": obs.trace}));
+            }
+            apply(obs, out, gen, case, rep);
+        }
+        "buffered" => {
+            let plan = buf_plan(index, seed, tier);
+            rep.sig(hash64(&("buf", format!("{:?}", plan))));
+            rep.count(&format!("adapter_role[{}]", if plan.cfg.adapter_is_client { "client" } else { "server" }));
+            let out = rig::run_scenario(&stage, buffered_scenario(&plan, &obs, &stage));
+            let case = json!({"cfg": plan.cfg.json(), "bidi": plan.bidi, "total": plan.total, "writes": plan.writes.len(), "ops": format!("{:?}", plan.ops)});
             let obs = obs.into_inner();
             if index == 0 {
                 rep.sample(json!({"gen": gen, "index": index, "plan": case, "trace": obs.trace}));
